@@ -208,7 +208,7 @@ def r09_2(ctx):
     r = Runner(idx, keep_real=("simplify_conditional_expr",))
     from .c05 import origin
 
-    for val, exp in ((1, "items[1]"), (0, "items[2]"), (7, "items[1]")):
+    for val, exp in ((1, "items[1]"), (0, "items[2]"), (7, "items[1]"), (2, "items[1]"), (4, "items[1]"), (-2, "items[1]"), (0x100000000, "items[1]")):
         fi, outs = r.run("simplify_conditional_expr", lambda val=val: [[number(r, "c", val, True, 32), r.pure("items[1]"), r.pure("items[2]")]], args_list=True)
         ctx.check(f"constant condition {val} selects", bool(outs) and all(origin(lab(o.value)) == exp for o in outs), exp, str([lab(o.value) for o in outs]), fn_where(idx, fi))
     fi, outs = r.run("simplify_conditional_expr", lambda: [[r.pure("c"), r.pure("items[1]"), r.pure("items[2]")]], args_list=True)
@@ -363,6 +363,22 @@ def r09_5(ctx):
         vals.discard("RAISE") if len(vals) > 1 else None
         ctx.check(f"number[{text}]", (exp, True, 32) in vals and all(v == (exp, True, 32) for v in vals if v != "RAISE"), str((exp, True, 32)), str(sorted(map(str, vals))), fn_where(idx, fi))
     literal_rendering(ctx)
+    number_token_classes(ctx)
+
+
+def number_token_classes(ctx):
+    """the number terminals take exactly the spellings whose base the compiler knows: DEC_NUMBER is read with base 10, so it must not
+    accept a spelling with a leading zero (an octal constant in C: 010 is 8); HEX_NUMBER is read with base 16"""
+    from sa.larkmodel import get_grammar
+
+    gm = get_grammar(ctx.env)
+    for tname, yes, no in (("DEC_NUMBER", ["0", "7", "10", "4294967296"], ["010", "007", "00", "0x10", "08"]), ("HEX_NUMBER", ["0x10", "0XfF", "0x0"], ["10", "0", "x10"])):
+        t = gm.terminals.get(tname)
+        ctx.need(t is not None and t["kind"] == "re", f"terminal {tname} missing")
+        fl = re.I if "i" in t["flags"] else 0
+        rx_ = re.compile(t["value"], fl)
+        bad = [f"{x!r} not accepted" for x in yes if not rx_.fullmatch(x)] + [f"{x!r} accepted" for x in no if rx_.fullmatch(x)]
+        ctx.check(f"{tname} spellings", not bad, f"accepts {yes}, rejects {no}", "; ".join(bad) or "ok", gm.where(tname))
 
 
 def literal_rendering(ctx):
@@ -392,3 +408,24 @@ def r09_6(ctx):
     from .c06 import r06_6
 
     r06_6(ctx)
+
+
+FOLDING_CALLBACKS = [
+    ("unary_expr", lambda r: [Tok("UNARY_OP", "-"), r.pure("items[1]", cls="Number")]),
+    ("additive_expr", lambda r: [r.pure("items[0]", cls="Number"), Tok("ADD_OP", "+"), r.pure("items[2]", cls="Number")]),
+    ("multiplicative_expr", lambda r: [r.pure("items[0]", cls="Number"), Tok("MUL_OP", "*"), r.pure("items[2]", cls="Number")]),
+    ("relational_expr", lambda r: [r.pure("items[0]", cls="Number"), Tok("LT_OP", "<"), r.pure("items[2]", cls="Number")]),
+    ("equality_expr", lambda r: [r.pure("items[0]", cls="Number"), Tok("EQ_OP", "=="), r.pure("items[2]", cls="Number")]),
+]
+
+
+@rule("R09.9", "C09", "the value of a folded expression is the constant folded from ITS operands: a callback hands on the folder's result itself, never a constant an earlier expression left behind under the same name (folded constants are named after their value only, their type varies)", min_instances=5)
+def r09_9(ctx):
+    idx = get_index(ctx.env)
+    for cb, mk in FOLDING_CALLBACKS:
+        r = Runner(idx)
+        fi, outs = r.run(cb, lambda r=r, mk=mk: mk(r))
+        folded = [o for o in outs if any(d == (f"simplify_{'unary' if cb == 'unary_expr' else 'compare' if cb in ('relational_expr', 'equality_expr') else 'arithmetic'}_expr folds", True) for d in o.decisions)]
+        ctx.need(folded, f"{cb}: no folding path found (decisions: {[o.decisions[:2] for o in outs][:3]})")
+        obs = sorted({("raises " + str(o.value)[:30]) if o.kind == "raise" else lab(o.value) for o in folded})
+        ctx.check(f"{cb}: the folded constant is handed on as it is", obs == ["folded"], "the folder's result", str(obs)[:140], fn_where(idx, fi))
